@@ -1106,7 +1106,7 @@ func (m *membersPool) Get(k *net.UDPAddr) (Member, bool) {
 	case !found, i == nil:
 		return nil, false
 	default:
-		return i, false
+		return i, true
 	}
 }
 
@@ -1160,8 +1160,18 @@ func (m *membersPool) Set(member Member) (added bool) {
 			members = i
 		}
 
-		members = append(members, member)
-		m.members.SetValue(member.Address().String(), members)
+		// NOTE the rejoined member replaces the previous one
+		id := memberid(member.Addr())
+		nmembers := make([]Member, 0, len(members)+1)
+
+		for i := range members {
+			if memberid(members[i].Addr()) != id {
+				nmembers = append(nmembers, members[i])
+			}
+		}
+
+		nmembers = append(nmembers, member)
+		m.members.SetValue(member.Address().String(), nmembers)
 
 		return member, nil
 	})
@@ -1171,9 +1181,27 @@ func (m *membersPool) Set(member Member) (added bool) {
 
 func (m *membersPool) Remove(k *net.UDPAddr) (bool, error) {
 	return m.addrs.Remove(memberid(k), func(i Member, found bool) error {
-		if found {
-			_ = m.members.RemoveValue(i.Address().String())
+		if !found {
+			return nil
 		}
+
+		// NOTE the other members of the node remain
+		id := memberid(i.Addr())
+
+		_, _, _, _ = m.members.SetOrRemove(
+			i.Address().String(),
+			func(members []Member, _ bool) ([]Member, bool, error) {
+				nmembers := make([]Member, 0, len(members))
+
+				for j := range members {
+					if memberid(members[j].Addr()) != id {
+						nmembers = append(nmembers, members[j])
+					}
+				}
+
+				return nmembers, len(nmembers) < 1, nil
+			},
+		)
 
 		return nil
 	})
